@@ -463,7 +463,10 @@ class PoolManager(RequestMethods):
             body_pos = None
             kw["headers"] = HTTPHeaderDict(kw["headers"])._prepare_for_method_change()
 
-        retries = kw.get("retries", conn.retries)
+        retries = kw.get("retries")
+        if retries is None:
+            # Not given, or given as None: the policy of the pool applies.
+            retries = conn.retries
         if not isinstance(retries, Retry):
             retries = Retry.from_int(retries, redirect=redirect)
 
